@@ -47,6 +47,9 @@ class Engine(StmtMixin, CallMixin, ExprMixin, EngineBase):
             st.ghost[g] = c.fresh(gs, "G_" + g)
         for g, gs in k.get("ghost_local", {}).items():
             st.ghost[g] = c.fresh(gs, "G_" + g)
+        if k.get("yields") is not None:
+            c.need(k["yields"])
+            st.ghost["yielded"] = T(k["yields"], f"(as seq.empty {sort_smt(k['yields'])})")
         for f in self.m.fields:
             self.field(st, f)
         for r in list(k.get("requires", [])) + list(k.get("ghost_init", [])):
